@@ -181,7 +181,7 @@ def generate(rng):
     pdtype = {p["id"]: (p["dtype"] or "float32") for p in prims}
     mdtype = {h["id"]: "float32" for h in hedgers}
     ops = []
-    n_ops = rng.randint(6, 30)
+    n_ops = rng.randint(6, 30) * (2 if rng.big else 1)
     actors = ["A", "B", "C"][: rng.randint(1, 3)]
     fault_rate = rng.choice([0.0, 0.1, 0.2])
 
@@ -195,7 +195,7 @@ def generate(rng):
         if kind == "simulate":
             if rng.chance(0.8):
                 d = rng.choice(derivs)
-                n = rng.choice([1, 2, 3, 4, 5, 8])
+                n = rng.npaths([1, 2, 3, 4, 5, 8])
                 op = {"op": "simulate", "target": d["id"], "n_paths": n, "torch_seed": rng.seed31()}
                 sim[d["underlier"]] = n
                 simk[d["underlier"]] = d["_k"]
@@ -239,8 +239,8 @@ def generate(rng):
             emit(op, actor)
         elif kind == "quant":
             qk = rng.wchoice([("payoff", 2), ("feature", 5), ("listed_spot", 1), ("bs_bound", 2), ("bs_explicit", 2),
-                              ("autogreek", 1), ("criterion", 2), ("functional", 2)])
-            if qk in ("payoff", "feature", "listed_spot", "bs_bound"):
+                              ("autogreek", 1), ("criterion", 2), ("functional", 2), ("pl_view", 1), ("crit_on_pl", 1)])
+            if qk in ("payoff", "feature", "listed_spot", "bs_bound", "pl_view", "crit_on_pl"):
                 cands = [d for d in derivs if sim[d["underlier"]] is not None and not too_short(d)]
                 if qk == "listed_spot":
                     cands = [d for d in cands if d.get("listed")]
@@ -706,6 +706,32 @@ def _do_quant(world, op, stats, hist, seq):
                 out = m(x)
             else:
                 out = getattr(m, op["method"])()
+            hazard = True
+        elif k == "pl_view":
+            # pl() / payoff functions called directly on a VIEW of the instrument buffer
+            import pfhedge.nn.functional as F
+            d = world.derivatives[op["derivative"]]
+            ul = next(iter(d.underliers()))
+            spot_view = ul.spot.unsqueeze(1)
+            unit = torch.linspace(-1, 1, spot_view.shape[-1], dtype=ul.spot.dtype).expand_as(spot_view).clone()
+            pay = d.payoff()
+            callers = _callers(unit=unit, payoff=pay)
+            site = "pl(view of buffer)"
+            out = F.pl(spot_view, unit, cost=[1e-3], payoff=pay)
+            F.european_payoff(ul.spot)
+            F.lookback_payoff(ul.spot, call=False)
+            F.realized_variance(ul.spot.abs() + 1e-3, dt=0.01)
+            hazard = True
+        elif k == "crit_on_pl":
+            import pfhedge.nn as pfn
+            d = world.derivatives[op["derivative"]]
+            pay = d.payoff()
+            x = next(iter(d.underliers())).spot[:, -1]
+            callers = _callers(payoff=pay)
+            site = "criterion(buffer column, payoff)"
+            for crit in (pfn.EntropicRiskMeasure(), pfn.ExpectedShortfall(0.5), pfn.QuadraticCVaR(2.0), pfn.EntropicLoss()):
+                out = crit(x, pay)
+                crit.cash(x, pay)
             hazard = True
         elif k == "bs_explicit":
             g = torch.Generator()
